@@ -227,6 +227,8 @@ def generate(seed, tier):
         # a fifth of the bound runs go through a real file-like object (io.StringIO / io.BytesIO) instead of the
         # simulated stream: code that treats genuine io objects specially (readline, readinto, peek) is only reachable there
         case['via'] = 'io' if r.random() < 0.3 else 'sim'
+        if case['via'] == 'io' and form != 'text' and r.random() < 0.4:
+            case['via'] = 'rawio'        # an unbuffered binary file object (io.RawIOBase): nobody may put a big buffer in front of it
         if case['via'] == 'io' and r.random() < 0.6 and len(parts) >= 2:
             # a document whose '---' line is itself longer than two refill blocks: whoever refills by physical
             # lines (readline, iteration over the file) takes all of it before the previous document is delivered
@@ -396,7 +398,25 @@ def execute(case):
             out['log'] = 'invalid-' + type(exc).__name__
             return out
         ends_u = [unit_offset(text, e, form) for e in ends]
-        if case.get('via') == 'io':
+        if case.get('via') == 'rawio' and not isinstance(data, str):
+            import io
+
+            class CountingRaw(io.RawIOBase):
+                def __init__(self, payload):
+                    self.payload, self.pos = payload, 0
+
+                def readable(self):
+                    return True
+
+                def readinto(self, b):
+                    piece = self.payload[self.pos:self.pos + len(b)]
+                    b[:len(piece)] = piece
+                    self.pos += len(piece)
+                    return len(piece)
+            stream = CountingRaw(data)
+            consumed = lambda: stream.pos
+            out['probes']['bound_runs_through_raw_io_objects'] = 1
+        elif case.get('via') in ('io', 'rawio'):
             import io
             stream = io.StringIO(data) if isinstance(data, str) else io.BytesIO(data)
             consumed = stream.tell
